@@ -3,8 +3,9 @@
 From Coq Require Import Sorted.
 From Verif Require Import Model.Bytes Model.SMap Model.MetaKV Proofs.SMapFacts Proofs.MetaKVFacts.
 
-(* setting or deleting an EXISTING key succeeds iff the supplied version equals the current one;
-   a key that does not exist is written regardless of the supplied version *)
+(* setting or deleting a key succeeds iff the supplied version equals the current one; a key that does not exist has
+   version 0 (repaired code, KNOWN_FINDINGS F-C14-absent-key-cas: before the repair an absent key was written or
+   'deleted' regardless of the supplied version) *)
 Theorem C13_cas_code : forall (s : mstore) (e : mentry),
   fst (snd (mupdate s e)) = if cas_ok s e then kv_ResultCodeSuccess else kv_ResultCodeVersionMismatch.
 Proof. exact mupdate_code. Qed.
@@ -16,6 +17,18 @@ Theorem C13_mismatch : forall (s : mstore) (e : mentry) (cur : pair),
   mupdate s e = (s, (kv_ResultCodeVersionMismatch, cur)).
 Proof. exact mupdate_mismatch. Qed.
 Print Assumptions C13_mismatch.
+
+(* ... also for a key that does not exist: with any other version than 0 the update is refused and the (empty) current
+   pair is reported *)
+Theorem C13_absent_mismatch : forall (s : mstore) (e : mentry),
+  mget s (me_key e) = None -> me_ver e <> 0 ->
+  mupdate s e = (s, (kv_ResultCodeVersionMismatch, {| pk := me_key e; pv := []; pver := 0 |})).
+Proof. exact mupdate_absent_mismatch. Qed.
+Theorem C13_absent_match : forall (s : mstore) (e : mentry),
+  mget s (me_key e) = None -> me_ver e = 0 ->
+  mupdate s e = (apply_op s e, (kv_ResultCodeSuccess, {| pk := me_key e; pv := me_val e; pver := me_index e |})).
+Proof. exact mupdate_absent. Qed.
+Print Assumptions C13_absent_mismatch.
 
 Theorem C13_match : forall (s : mstore) (e : mentry) (cur : pair),
   mget s (me_key e) = Some cur -> pver cur = me_ver e ->
